@@ -256,6 +256,17 @@ func (fr *Frame) intBinop(st *State, op token.Token, x, y Term, ta, tb, tr types
 			}
 			return r
 		}
+		if ex.fc != nil && ex.fc.Opts["bitops"] == "cases" {
+			// opt bitops cases: one exact fact per shift amount (x << k == wrap(x * 2^k))
+			w := intWidth(ta.Underlying().(*types.Basic))
+			return uf("shl", func(r Term) Term {
+				cs := []Term{implies(app(SBool, ">=", y, intLit(int64(w))), eq(r, intLit(0)))}
+				for k := 0; k < w; k++ {
+					cs = append(cs, implies(eq(y, intLit(int64(k))), eq(r, cx.wrapGeneral(app(SInt, "*", x, bigLit(pow2(k))), tr))))
+				}
+				return and(cs...)
+			})
+		}
 		return uf("shl", nil)
 	case token.SHR:
 		if k, ok := litValue(y); ok {
@@ -291,8 +302,39 @@ func (fr *Frame) intBinop(st *State, op token.Token, x, y Term, ta, tb, tr types
 			return and(implies(nonneg(x), and(nonneg(r), app(SBool, "<=", r, x))), implies(nonneg(y), and(nonneg(r), app(SBool, "<=", r, y))))
 		})
 	case token.OR:
+		// c | v with a non-negative literal c whose lowest set bit is 2^k and
+		// 0 <= v < 2^k: the operands share no bit, the result is c + v (exact).
+		disjoint := func(r Term) Term { return Term{"true", SBool} }
+		for _, pr := range [][2]Term{{x, y}, {y, x}} {
+			if c, ok := litValue(pr[0]); ok && c.Sign() > 0 {
+				k := c.TrailingZeroBits()
+				v := pr[1]
+				cc := c
+				disjoint = func(r Term) Term {
+					return implies(and(nonneg(v), app(SBool, "<", v, bigLit(pow2(int(k))))), eq(r, app(SInt, "+", bigLit(cc), v)))
+				}
+				break
+			}
+		}
+		if _, okx := litValue(x); !okx && ex.fc != nil && ex.fc.Opts["bitops"] == "cases" {
+			if _, oky := litValue(y); !oky {
+				// opt bitops cases: a < 2^k and b a multiple of 2^k share no bit
+				w := intWidth(ta.Underlying().(*types.Basic))
+				xx, yy := x, y
+				disjoint = func(r Term) Term {
+					var cs []Term
+					for k := 0; k < w; k++ {
+						for _, pr := range [][2]Term{{xx, yy}, {yy, xx}} {
+							cs = append(cs, implies(and(nonneg(pr[0]), app(SBool, "<", pr[0], bigLit(pow2(k))), nonneg(pr[1]), eq(app(SInt, "mod", pr[1], bigLit(pow2(k))), intLit(0))),
+								eq(r, app(SInt, "+", pr[0], pr[1]))))
+						}
+					}
+					return and(cs...)
+				}
+			}
+		}
 		return uf("or", func(r Term) Term {
-			return implies(and(nonneg(x), nonneg(y)), and(app(SBool, ">=", r, x), app(SBool, ">=", r, y), app(SBool, "<=", r, app(SInt, "+", x, y))))
+			return and(disjoint(r), implies(and(nonneg(x), nonneg(y)), and(app(SBool, ">=", r, x), app(SBool, ">=", r, y), app(SBool, "<=", r, app(SInt, "+", x, y)))))
 		})
 	case token.XOR:
 		return uf("xor", func(r Term) Term {
